@@ -403,7 +403,8 @@ def moment_requests(ctx):
     # always present: frequency 0 with and without an identity power, odd/even mixes
     forced = [(1, 2, 0), (0, 1, 1), (1, 0, 2), (2, 1, 1), (0, 2, 0), (1, 1, 0)]
     for fam, plist in FAMILY_PARAMS.items():
-        nps = ctx.pick(1, len(plist))
+        heavy = fam in SLOW or fam == "DiscreteUniform"
+        nps = ctx.pick(1, 2 if heavy else len(plist))
         chosen = ctx.rng.sample(plist, min(nps, len(plist)))
         for params in chosen:
             if fam == "Categorical":
@@ -412,8 +413,11 @@ def moment_requests(ctx):
                 continue
             tr = list(trig)
             ex = list(expo)
+            if not ctx.quick and heavy:
+                tr = forced + ctx.rng.sample([t for t in tr if t[0] <= 2 and max(t[1], t[2]) <= 2 and t not in forced], 8)
+                ex = ctx.rng.sample(ex, 6)
             if ctx.quick:
-                if fam in SLOW or fam == "DiscreteUniform":
+                if heavy:
                     # sympy is slow on these closed forms (TruncNormal erf, Beta Piecewise, DiscreteUniform quotient)
                     tr = [t for t in forced if t[0] <= 1][:4] + ctx.rng.sample([t for t in tr if t[0] <= 1 and t not in forced], 3)
                     ex = ctx.rng.sample(ex, 3)
